@@ -188,24 +188,30 @@ func checkC11(c *Ctx) {
 			}
 		}
 		if op.Kind == "p" && !o.Panicked {
-			want := 0
+			// HAP: a write request in which every entry succeeded has no content; otherwise every entry of the request gets
+			// its status (F75) — -70406 for a subscription without event permission, -70404 for a value without write
+			// permission, 0 for the rest
+			var want []int
+			failed := false
 			for _, e := range op.Puts {
-				if e.HasEv && e.Ev != nil {
-					want++
+				st := 0
+				if e.Value != nil && !hasPerm(cc.C.Perms, "pw") {
+					st = -70404
 				}
+				if e.HasEv && e.Ev != nil && !hasPerm(cc.C.Perms, "ev") {
+					st = -70406
+				}
+				if st != 0 {
+					failed = true
+				}
+				want = append(want, st)
 			}
-			if !hasPerm(cc.C.Perms, "ev") {
-				bad := len(o.Statuses) != want
-				for _, s := range o.Statuses {
-					if s != -70406 {
-						bad = true
-					}
-				}
-				if bad {
-					c.Violate("C11: subscription on a characteristic without event permission not answered with -70406", spec.id, input, fmt.Sprintf("%d entries with status -70406 (%s)", want, at), fmt.Sprint(o.Statuses))
-				}
-			} else if len(o.Statuses) != 0 {
-				c.Violate("C11: PUT on an observable characteristic answered with a status", spec.id, input, "204 ("+at+")", fmt.Sprint(o.Statuses))
+			if !failed {
+				want = nil
+			}
+			if fmt.Sprint(o.Statuses) != fmt.Sprint(want) && !(len(want) == 0 && len(o.Statuses) == 0) {
+				sig := "C11: a write request is not answered with a status for every entry (-70406 without event permission, -70404 without write permission, 0 otherwise) when an entry failed, and without content when none did"
+				c.Violate(sig, spec.id, input, fmt.Sprintf("%v (%s)", want, at), fmt.Sprint(o.Statuses))
 			}
 		}
 		if !hasPerm(cc.C.Perms, "ev") && o.Sub {
